@@ -1,3 +1,5 @@
+import Resgate.Model.Basic
+
 /-
 Model of the HTTP resource encoders (`server/apiEncoding.go`): `encoderJSON` and `encoderJSONFlat`,
 over an abstract resource graph, and of `RIDToPath` / `PathToRID` (with `url.PathEscape` /
@@ -205,5 +207,59 @@ def pathUnescape : List Char → Option (List Nat)
     | _, _, _ => none
   | '%' :: _ => none
   | c :: rest => (pathUnescape rest).map fun r => c.toString.toUTF8.toList.map (·.toNat) ++ r
+
+end Resgate.Enc
+
+namespace Resgate.Enc
+open Resgate
+
+/-- `url.PathUnescape` on bytes. -/
+def unescapeB : Bytes → Option Bytes
+  | [] => some []
+  | 37 :: a :: b :: rest =>
+    match hexVal? (Char.ofNat a), hexVal? (Char.ofNat b), unescapeB rest with
+    | some x, some y, some r => if a < 128 ∧ b < 128 then some ((x * 16 + y) :: r) else none
+    | _, _, _ => none
+  | 37 :: _ => none
+  | c :: rest => (unescapeB rest).map (c :: ·)
+
+def isPrefixB : Bytes → Bytes → Bool
+  | [], _ => true
+  | _ :: _, [] => false
+  | a :: as, b :: bs => a == b && isPrefixB as bs
+
+/-- `PathToRID(path, query, prefix)`; the empty result stands for "no resource id" (404). -/
+def pathToRID (path query pref : Bytes) : Bytes :=
+  if path.length == pref.length || !isPrefixB pref path then []
+  else
+    let p := path.drop pref.length
+    if p.contains cDot then []
+    else
+      let p := match p with
+        | 47 :: rest => rest
+        | _ => p
+      match (splitOn cSlash p).mapM unescapeB with
+      | none => []
+      | some parts =>
+        let rid := joinWith cDot parts
+        if query.isEmpty then rid else rid ++ cQm :: query
+
+/-- `PathToRIDAction`: (rid, action). -/
+def pathToRIDAction (path query pref : Bytes) : Bytes × Bytes :=
+  if path.length == pref.length || !isPrefixB pref path then ([], [])
+  else
+    let p := path.drop pref.length
+    if p.contains cDot then ([], [])
+    else
+      let p := match p with
+        | 47 :: rest => rest
+        | _ => p
+      let raw := splitOn cSlash p
+      if raw.length < 2 then ([], [])
+      else match raw.mapM unescapeB with
+        | none => ([], [])
+        | some parts =>
+          let rid := joinWith cDot parts.dropLast
+          ((if query.isEmpty then rid else rid ++ cQm :: query), parts.getLast?.getD [])
 
 end Resgate.Enc
